@@ -219,3 +219,7 @@ def run(ctx: Ctx):
     ctx.cov["traces_validated_against_impl"] += len(recs)
     ctx.sample({k: v for k, v in recs[0]["r"].items() if k not in ("on", "off")})
     ctx.sample({k: v for k, v in recs[-1]["r"].items() if k not in ("on", "off")})
+    # ---- code -> spec: recorded calls on larger coordinates, validated by TLC against Trace_Ops.tla
+    from ..optrace import run_optrace
+
+    run_optrace(ctx, ['conic_contains'])
